@@ -346,4 +346,73 @@ theorem rewrap_keeps_values {X Geo : Type} (w : String) (g : Option Geo) (x : X)
 example : wrapperSolution "minimize" (some 7) (1 : ℕ) = Sol.cuqi 1 7 ∧ wrapperSolution "LS" (none : Option ℕ) (1 : ℕ) = .plain 1 := by
   decide
 
+/-! ## 8. `maxit` re-assigned after construction -/
+
+/-- **`solver.maxit = q` bypasses `int()`:** the loop `while k < maxit` then allows exactly the naturals below `q`
+    (`⌈q⌉` passes for `q > 0`, none for `q ≤ 0`), which is the constructor's budget `max(int q, 0)` or one more — one
+    more exactly when `q > 0` is not an integer (`2.5`: 3 passes instead of 2). -/
+theorem budgetAssigned_spec (q : ℚ) :
+    ∃ n, budgetAssigned (.fin q) = some n ∧ (∀ k : ℕ, k < n ↔ (k : ℚ) < q) ∧
+      budget (pyTrunc q) ≤ n ∧ n ≤ budget (pyTrunc q) + 1 ∧
+      (n = budget (pyTrunc q) ↔ (q ≤ 0 ∨ ∃ z : ℤ, (z : ℚ) = q)) := by
+  have hcl : ∀ r : ℚ, pyCeil r = ⌈r⌉ := fun r => by
+    show -(Rat.floor (-r)) = ⌈r⌉
+    rw [show Rat.floor (-r) = ⌊-r⌋ from rfl, Int.floor_neg, neg_neg]
+  have hfl : ∀ r : ℚ, Rat.floor r = ⌊r⌋ := fun _ => rfl
+  refine ⟨⌈q⌉.toNat, by simp [budgetAssigned, hcl], ?_, ?_⟩
+  · intro k
+    rw [Int.lt_toNat, Int.lt_ceil]; simp
+  · by_cases hq : q ≤ 0
+    · have h1 : ⌈q⌉ ≤ 0 := Int.ceil_le.2 (by simpa using hq)
+      have h2 : budget (pyTrunc q) = 0 := by
+        rcases hq.lt_or_eq with hlt | heq
+        · have := ((pyTrunc_spec q).2.1 hlt).1
+          unfold budget; omega
+        · subst heq; decide
+      have h3 : ⌈q⌉.toNat = 0 := by omega
+      rw [h2, h3]
+      exact ⟨le_rfl, by omega, by simp [hq]⟩
+    · have hpos : 0 < q := not_le.1 hq
+      have ht : pyTrunc q = ⌊q⌋ := by
+        simp [pyTrunc, not_lt.2 hpos.le, hfl]
+      have hf0 : 0 ≤ ⌊q⌋ := Int.floor_nonneg.2 hpos.le
+      have hfc : ⌊q⌋ ≤ ⌈q⌉ := Int.floor_le_ceil q
+      have hc1 : ⌈q⌉ ≤ ⌊q⌋ + 1 := Int.ceil_le_floor_add_one q
+      unfold budget
+      rw [ht]
+      refine ⟨by omega, by omega, ?_⟩
+      constructor
+      · intro h
+        right
+        have : ⌈q⌉ = ⌊q⌋ := by omega
+        exact ⟨⌊q⌋, le_antisymm (Int.floor_le q) (by rw [← this]; exact Int.le_ceil q)⟩
+      · rintro (h | ⟨z, hz⟩)
+        · exact absurd h hq
+        · subst hz; simp
+
+example : budgetAssigned (.fin (5 / 2)) = some 3 ∧ budget (pyTrunc (5 / 2)) = 2 := by decide +kernel
+
+/-- **CGLS with a re-assigned `maxit`:** for a finite `q` it returns `(x, k)` of the model recurrence with `k ≤ ⌈q⌉` passes
+    (none for `q ≤ 0`); `nan` and `-inf` allow no pass (the start vector comes back); `+inf` leaves only the flag to stop the
+    loop (not modelled: `none`).  For FISTA `nan` leaves only `abstol` to stop the loop. -/
+theorem cgls_assigned_maxit {K V W : Type} [Field K] [LinearOrder K] [IsStrictOrderedRing K]
+    (oV : VOps K V) (oW : VOps K W) (fwd : V → W) (adj : W → V) (b : W) (shift tol eps : K) (x0 : V) :
+    (∀ q : ℚ, ∃ x k, cglsAssigned oV oW fwd adj b shift tol eps x0 (.fin q) = some (x, k) ∧ (k : ℤ) ≤ max ⌈q⌉ 0 ∧
+        (q ≤ 0 → x = x0 ∧ k = 0)) ∧
+    cglsAssigned oV oW fwd adj b shift tol eps x0 .nan = some (x0, 0) ∧
+    cglsAssigned oV oW fwd adj b shift tol eps x0 .negInf = some (x0, 0) ∧
+    cglsAssigned oV oW fwd adj b shift tol eps x0 .posInf = none ∧
+    (∀ prox t abstol ad, fistaAssigned oV oW fwd adj b prox t abstol ad x0 .nan = none) := by
+  have hcl : ∀ r : ℚ, pyCeil r = ⌈r⌉ := fun r => by
+    show -(Rat.floor (-r)) = ⌈r⌉
+    rw [show Rat.floor (-r) = ⌊-r⌋ from rfl, Int.floor_neg, neg_neg]
+  refine ⟨fun q => ⟨_, _, rfl, ?_, fun hq => ?_⟩, rfl, rfl, rfl, fun _ _ _ _ => rfl⟩
+  · have := cgls_k_le oV oW fwd adj b shift tol eps x0 ((pyCeil q).toNat)
+    rw [hcl] at this ⊢
+    omega
+  · have h1 : ⌈q⌉ ≤ 0 := Int.ceil_le.2 (by simpa using hq)
+    have h3 : (pyCeil q).toNat = 0 := by rw [hcl]; omega
+    simp only [h3]
+    exact ⟨rfl, rfl⟩
+
 end CuqiVerif.C16
